@@ -4,6 +4,7 @@ recogniser, the API JSON).  Each `check_*` returns a list of failures (property,
 they run in worker processes."""
 from __future__ import annotations
 
+import json
 import re
 
 import stubparse
@@ -63,6 +64,7 @@ class Truth:
         for a in c["inst_attrs"]:
             if a["name"] not in seen:
                 self.add(f"{q}.{a['name']}", "attr", a, m, c, path_private)
+                self.decls[f"{q}.{a['name']}"]["inst"] = True
                 seen.add(a["name"])
         for f in c["methods"]:
             self.add(f"{q}.{f['name']}", "prop" if f["is_property"] else "fun", f, m, c, path_private)
@@ -70,6 +72,26 @@ class Truth:
             self.add(f"{q}.__init__", "ctor", c["init"], m, c, path_private)
         for k in c["classes"]:
             self.add_class(k, m, c, path_private)
+
+    def ancestor_attr_names(self, c, seen=None) -> set:
+        """names of the attributes (class level or assigned in the constructor) of all ancestors of class spec c"""
+        out = set()
+        seen = seen if seen is not None else set()
+        for b in c.get("bases", []):
+            bq = b[1]
+            if bq in seen or bq not in self.decls:
+                continue
+            seen.add(bq)
+            bs = self.decls[bq]["spec"]
+            out |= {a["name"] for a in bs.get("attrs", []) + bs.get("inst_attrs", [])}
+            out |= {f["name"] for f in bs.get("methods", [])}
+            out |= self.ancestor_attr_names(bs, seen)
+        return out
+
+    def reassigns_inherited(self, d) -> bool:
+        """`self.x = v` (no annotation) in a constructor for an x some ancestor defines: not a new attribute"""
+        return bool(d.get("inst")) and d["spec"].get("ann") is None and d["owner"] is not None \
+            and d["spec"]["name"] in self.ancestor_attr_names(d["owner"])
 
     def touched_by_reexport(self, d) -> bool:
         """is the declaration (or something enclosing it) mentioned by any __init__ re-export?"""
@@ -303,7 +325,7 @@ def check_all(prop: str, pkg, opts, res) -> list:
             if d["kind"] == "variant" or (d["owner"] is not None and d["owner"].get("kind") == "enum"):
                 continue
             locs = locations(truth, d)
-            if not locs:
+            if not locs or truth.reassigns_inherited(d):
                 continue
             found = [(x, loc) for loc in dict.fromkeys(locs) for x in stubs.decls.get(loc, [])]
             # a class that derives from Exception is dropped on purpose; our classes never do
@@ -343,8 +365,8 @@ def check_all(prop: str, pkg, opts, res) -> list:
                 if truth.plainly_private(d) and x["is_public"] is not False:
                     fail("C04", f"API JSON marks private {d['kind']} {q} as public", decl=q)
 
-    # ---------------- per-function checks: C05, C06, C07, C20, C13
-    if prop in ("C05", "C06", "C07", "C20", "C13"):
+    # ---------------- per-function checks: C05, C06, C07, C20, C13, C14
+    if prop in ("C05", "C06", "C07", "C20", "C13", "C14"):
         for q, d in truth.decls.items():
             if d["module"]["qname"] in excluded:
                 continue
@@ -361,7 +383,7 @@ def check_all(prop: str, pkg, opts, res) -> list:
                     decl, path = found[0]
                     if decl.params is None:
                         continue
-                    check_function(fail, prop, q, f, decl, path, safe, True, opts, is_ctor=True)
+                    check_function(fail, prop, q, f, decl, path, safe, True, opts, is_ctor=True, warnings=res.get("warnings", ()))
                 else:
                     if not truth.plainly_public(d):
                         continue
@@ -371,7 +393,7 @@ def check_all(prop: str, pkg, opts, res) -> list:
                     decl, path = found[0]
                     if decl.kind != "fun":
                         continue
-                    check_function(fail, prop, q, f, decl, path, safe, d["owner"] is not None, opts)
+                    check_function(fail, prop, q, f, decl, path, safe, d["owner"] is not None, opts, warnings=res.get("warnings", ()))
             elif d["kind"] == "attr" and prop in ("C05", "C20") and truth.plainly_public(d):
                 found = [x for loc in dict.fromkeys(locations(truth, d)) for x in stubs.decls.get(loc, [])]
                 if len(found) != 1:
@@ -461,7 +483,130 @@ def canon_or_none(text):
         return None
 
 
-def check_function(fail, prop, q, f, decl, path, safe, is_method, opts, is_ctor=False):
+def canon_api_type(t):
+    """API type dict with union members in a canonical order (== on API union types ignores the order)"""
+    if isinstance(t, dict):
+        d = {k: canon_api_type(v) for k, v in t.items()}
+        if d.get("kind") == "UnionType":
+            d["types"] = sorted(d["types"], key=lambda x: json.dumps(x, sort_keys=True))
+        return d
+    if isinstance(t, list):
+        return [canon_api_type(x) for x in t]
+    return t
+
+
+def check_type_sources(fail, q, f, decl, safe, opts, is_ctor, warnings):
+    """C14: hint vs docstring type per parameter and result, and the discrepancy warnings.
+
+    griffe substitutes the hint of the signature for a docstring entry without a type (and, in reST style, for a
+    parameter whose `:type:` line follows its `:param:` line; in Google style for an unnamed `Returns:` entry of a
+    function with a return hint).  In those situations the docstring type the tool sees is griffe's reading of the
+    hint: failures there carry `signature_fallback: True` (known finding K14-signature-fallback)."""
+    style = opts.get("style", "plaintext")
+    structured = style != "plaintext"
+    pref_doc = opts.get("tsp", "CODE") == "DOCSTRING"
+    warn = opts.get("tsw", "WARN") == "WARN"
+    if is_ctor and style != "numpydoc":
+        return                    # Google / reST: constructor parameters are looked up in the class docstring only
+    fid = q.replace(".", "/")
+    mine = [w for w in warnings if w == f"Different type hint and docstring types for '{fid}'."]
+    mine_res = [w for w in warnings if w == f"Different type hint and docstring types for the result of '{fid}'."]
+    got = decl.params or []
+    params = f["params"]
+    type_first = f.get("rest_type_first", True)
+    must_warn = False
+    fallback_here = False
+    explicit_doc_type = False
+    if len(got) == len(params):
+        for p, g in zip(params, got):
+            documented = structured and bool(p["doc"] or p.get("doc_type"))
+            doc = expected_api_type(p["doc_type"][0]) if structured and p.get("doc_type") else None
+            hint = expected_api_type(p["ann"]) if p["ann"] is not None else None
+            code_side = hint is not None or p["default"] is not None
+            fallback = documented and code_side and (doc is None or (style == "rest" and not type_first))
+            fallback_here = fallback_here or fallback
+            explicit_doc_type = explicit_doc_type or (doc is not None and not fallback)
+            if "VARARG" in p["kind"]:
+                continue
+            if p["ann"] is None and p["default"] is not None:
+                continue          # the code side is a type inferred from the default value: not a hint, not judged
+            if fallback:
+                expected = hint
+            else:
+                if hint is not None and doc is not None and canon_api_type(hint) != canon_api_type(doc):
+                    must_warn = True
+                expected = doc if (doc is not None and (pref_doc or hint is None)) else hint
+            if expected is None:
+                continue
+            want = canon_or_none(type_text(expected, safe))
+            gt = stubparse.render_type(g.type)
+            if want is not None and gt != want:
+                src = "docstring" if expected is doc else "hint"
+                fail("C14", f"{q}: parameter {p['name']!r} has type {gt!r}; the {src} type {want!r} applies "
+                            f"(hint {'present' if hint is not None else 'absent'}, docstring type "
+                            f"{'present' if doc is not None else 'absent'}, preference {opts.get('tsp', 'CODE')})",
+                     decl=q, param=p["name"], hint=ann_src(p["ann"]) if p["ann"] is not None else None,
+                     doc_type=ann_src(p["doc_type"][0]) if p.get("doc_type") else None, signature_fallback=fallback)
+    else:
+        return
+    if not warn and (mine or mine_res):
+        fail("C14", f"{q}: a type discrepancy warning is logged although warnings are disabled", decl=q)
+    if warn and must_warn and not mine:
+        fail("C14", f"{q}: hint and docstring type of a parameter differ but no warning is logged", decl=q)
+    if warn and mine and not explicit_doc_type:
+        fail("C14", f"{q}: a parameter type warning is logged although the docstring gives no parameter type", decl=q,
+             signature_fallback=fallback_here)
+    # result
+    if not is_ctor and decl.kind == "fun":
+        documented = structured and bool(f.get("result_doc"))
+        rdt = f.get("result_doc_type") if documented else None
+        doc = expected_api_type(rdt[0]) if rdt else None
+        ret = f["ret"]
+        if ret is not None and (ret == ("None",) or ret[0] == "tuple"):
+            return
+        if ret is None and f["returns"] is not None:
+            return                # code side = inferred types: not judged
+        hint = expected_api_type(ret) if ret is not None else None
+        fallback = documented and hint is not None and (doc is None or style == "google")
+        if fallback:
+            expected = hint
+        else:
+            expected = doc if (doc is not None and (pref_doc or hint is None)) else hint
+            if hint is not None and doc is not None and warn and canon_api_type(hint) != canon_api_type(doc) and not mine_res:
+                fail("C14", f"{q}: hint and docstring type of the result differ but no warning is logged", decl=q)
+        if warn and mine_res and (doc is None or fallback):
+            fail("C14", f"{q}: a result type warning is logged although the docstring type does not reach the tool", decl=q,
+                 signature_fallback=fallback)
+        if expected is not None and len(decl.results) == 1:
+            want = canon_or_none(type_text(expected, safe))
+            gt = stubparse.render_type(decl.results[0][1])
+            if want is not None and gt != want:
+                fail("C14", f"{q}: result has type {gt!r}; expected {want!r} (preference {opts.get('tsp', 'CODE')})", decl=q,
+                     hint=ann_src(ret) if ret is not None else None, doc_type=ann_src(rdt[0]) if rdt else None,
+                     signature_fallback=fallback)
+        elif expected is not None and len(decl.results) != 1:
+            fail("C14", f"{q}: {len(decl.results)} results although exactly one source-typed result is described", decl=q,
+                 signature_fallback=fallback)
+
+
+def check_cross(prop, pkg, runs) -> list:
+    """properties that relate several runs on one package; runs = [(opts, res)]"""
+    fails = []
+    if prop == "C14":
+        by = {}
+        for opts, res in runs:
+            key = (opts.get("style"), opts.get("tsp", "CODE"), opts.get("convert", False), opts.get("test_run", False))
+            by.setdefault(key, []).append((opts, res))
+        for key, group in by.items():
+            for (o1, r1), (o2, r2) in zip(group, group[1:]):
+                if r1["outcome"] != r2["outcome"] or r1["files"] != r2["files"]:
+                    bad = sorted(p for p in set(r1["files"]) | set(r2["files"]) if r1["files"].get(p) != r2["files"].get(p))
+                    fails.append(("C14", f"generated files differ between warning settings {o1.get('tsw')} and {o2.get('tsw')}: {bad[:3]}",
+                                  {"options": [o1, o2], "paths": bad[:5]}))
+    return fails
+
+
+def check_function(fail, prop, q, f, decl, path, safe, is_method, opts, is_ctor=False, warnings=()):
     params = f["params"]
     got = decl.params or []
     docstring_types = opts.get("style", "plaintext") != "plaintext" and False
@@ -533,6 +678,8 @@ def check_function(fail, prop, q, f, decl, path, safe, is_method, opts, is_ctor=
                         if not need <= have:
                             fail("C07", f"{q}: result {i + 1} has type members {sorted(have)}, return statements produce {sorted(need)}",
                                  decl=q, returns=[[v[0] for v in r] for r in rets])
+    if prop == "C14":
+        check_type_sources(fail, q, f, decl, safe, opts, is_ctor, warnings)
     if prop == "C20":
         keys, unknown = set(), []
         for line in decl.todos:
@@ -699,6 +846,8 @@ def check_inventory(fail, truth: Truth, api, excluded):
             if c["superclasses"] != [b[1] for b in d["spec"]["bases"]]:
                 fail("C12", f"class {q}: superclasses {c['superclasses']}, source has {[b[1] for b in d['spec']['bases']]}", decl=q)
         elif d["kind"] == "attr":
+            if truth.reassigns_inherited(d):
+                continue
             if i not in ids.get("attributes", set()):
                 fail("C12", f"attribute {q} has no entry in the API JSON", decl=q)
         elif d["kind"] == "enum":
